@@ -5,8 +5,8 @@
     soundness is Proofs/CoveredProofs.v. *)
 From Coq Require Import List NArith ZArith Bool String.
 Import ListNotations.
-From LV Require Import Model.Show Model.Base Model.Template Model.Eval Model.Derived Model.EvalRun
-  Proofs.FrameProofs.
+From LV Require Import Model.Show Model.Base Model.Template Model.Eval Model.Derived Model.EvalRun.
+From LV Require Import Proofs.FrameProofs.
 
 Close Scope string_scope.
 Open Scope list_scope.
@@ -23,6 +23,7 @@ Definition cause_eqb (a b : cause) : bool :=
 Section Covered.
   Variable u : N -> list value -> cres.
   Variable fuel : nat.
+  Variable esw : bool.       (* the value of the effects switch along the history *)
 
   Definition rawE (e : expr) (o : dict) : res value :=
     fst (fst (eval unit nc_find nc_store cfg_nc u fuel (fun _ _ => true) e o tt)).
@@ -46,11 +47,16 @@ Section Covered.
 
   Definition site_cleanb (b : expr) (o : dict) : bool :=
     clean_at u fuel b o && agree_atb b o &&
-    match rawE b o with Ok v => negb (has_lazy v) | Err _ _ => true end.
+    match rawE b o with Ok v => negb (has_lazy v) | Err _ _ => true end &&
+    (* [esw_stable]: restricting to the reported keys does not flip the effects switch *)
+    match rawK b o with
+    | Ok K => Bool.eqb (effects_opt_off (restrict o K)) (effects_opt_off o)
+    | Err _ _ => true
+    end.
 
   (** [okd], for the cached expressions in the list [sl] *)
   Definition okdb (sl : list (N * expr)) (o : dict) : bool :=
-    wf_dict o && forallb (fun cb => site_cleanb (snd cb) o) sl.
+    wf_dict o && Bool.eqb (effects_opt_off o) esw && forallb (fun cb => site_cleanb (snd cb) o) sl.
 
   (** [scoh] for the singleton dictionary set {o}, coherence apart *)
   Fixpoint scohb (sl : list (N * expr)) (e : expr) (o : dict) {struct e} : bool :=
@@ -74,7 +80,9 @@ Section Covered.
         (fix go (l : list expr) : bool := match l with [] => true | x :: l' => scohb sl x o && go l' end) ms
     | EWith force p e => scohb sl e (with_opts force p o)
     | ELogged e => scohb sl e o
-    | EComp e effs => match effs with [] => scohb sl e o | _ => false end
+    | EComp e effs =>
+        scohb sl e o &&
+        (fix go (l : list expr) : bool := match l with [] => true | x :: l' => scohb sl x o && go l' end) effs
     | ECached _ e => frag e && okdb sl o && scohb sl e o
     | ECall _ f args kwargs =>
         scohb sl f o &&
@@ -119,6 +127,8 @@ Open Scope string_scope.
 Definition covered_ops (t : ftable) (es : list expr) (ops : list op) : string :=
   let u := ucall_of t in
   let sl := flat_map sites_of es in
+  (* one value of the effects switch along the history: that of the first operation *)
+  let esw := match ops with p :: _ => effects_opt_off p.(op_opts) | [] => false end in
   String.concat "" (map (fun p : op =>
     let e := nth p.(op_expr) es (EValue VMissing) in
-    if scohb u default_fuel sl e p.(op_opts) then "1" else "0") ops).
+    if scohb u default_fuel esw sl e p.(op_opts) then "1" else "0") ops).
